@@ -1464,7 +1464,7 @@ class C18(Spec):
         i = (seed // 2) % len(self.TEMPLATES)
         name, fam, td, secrets, stmts = self.TEMPLATES[i]
         pop = seed % 2
-        m = rng.choice((3, 3, 5))
+        m = rng.choice((3, 3, 5, 5, 7))
         cfg = sample_cfg(rng, tier, m_min=m, m_max=m, t_min=1)
         cfg.k = 30
         cfg.mix = False
@@ -1497,12 +1497,24 @@ class C18(Spec):
     def post_batch(self, agg, tier):
         import math
         groups = {}
+        by_cfg = {}
         for ex in agg.extras:
             for site, xs, bits in ex['sites']:
                 g = groups.setdefault((ex['tpl'], ex['noprss'], site), ([], [], []))
                 g[ex['pop']].extend(xs)
                 g[2].extend(bits)
+                by_cfg.setdefault((ex['tpl'], ex['noprss'], site, ex.get('m'), ex.get('t')), []).extend(bits)
         out = []
+        # mask length per (m, t): the masks are sums of binom(m, t) (PRSS) or t+1 terms, each bounded by 2^k / that number
+        for (tpl, noprss, site, m_, t_), bits in sorted(by_cfg.items(), key=repr):
+            l_tpl = next((t[2].get('l') for t in self.TEMPLATES if t[0] == tpl and t[1] in ('int', 'fxp')), None)
+            nz = [b for b in bits if b > 1]
+            if l_tpl is not None and len(nz) >= 10 and max(nz) < l_tpl + 30 - 5:
+                out.append(('invariant:mask-too-short',
+                            f'template {tpl} ({"no PRSS" if noprss else "PRSS"}, m={m_}, t={t_}), values opened at {site}: largest of '
+                            f'{len(nz)} opened values has {max(nz)} bits; an l={l_tpl} bit value masked with k=30 more bits would '
+                            f'give at least {l_tpl + 25}', None))
+                break
         self._summary = {}
         for (tpl, noprss, site), (p0, p1, bits) in sorted(groups.items()):
             n0, n1 = len(p0), len(p1)
@@ -1517,10 +1529,13 @@ class C18(Spec):
                             f'template {tpl} ({"no PRSS" if noprss else "PRSS"}), values opened at {site}: the two secret inputs give '
                             f'different distributions (KS={d:.3f} > {crit:.3f}, n={n0}+{n1})', None))
             nz = [b for b in bits if b > 1]
-            if nz and max(nz) < 30 + 1 - 3 and len(nz) >= 50 and not tpl.startswith('fld-'):   # additive masks only
+            l_tpl = next((t[2].get('l') for t in self.TEMPLATES if t[0] == tpl and t[1] in ('int', 'fxp')), None)
+            if nz and l_tpl is not None and len(nz) >= 50 and max(nz) < l_tpl + 30 - 3:
+                # additive masks cover the l bits of the value plus k more; multiplicatively blinded values are
+                # uniform in a field of l+k+2 bits: either way the largest of >= 50 opened values has about l+k bits
                 out.append(('invariant:mask-too-short',
                             f'template {tpl}, values opened at {site}: largest of {len(nz)} opened values has {max(nz)} bits; '
-                            f'a k=30 bit mask would give at least 28', None))
+                            f'an l={l_tpl} bit value masked with k=30 more bits would give at least {l_tpl + 27}', None))
         # product shape of opened degree-2t polynomials (t = 1 runs)
         sq = {}
         for ex in agg.extras:
@@ -1569,6 +1584,7 @@ class _OpeningExtract:
                 xs.append(v / order)
                 bits.append(v.bit_length())
         res.info['extra'] = {'tpl': self.case.get('template'), 'pop': self.case.get('pop'), 'noprss': int(w.cfg.no_prss),
+                             'm': w.cfg.m, 't': w.cfg.t,
                              'sites': [(s, xs, bits) for s, (xs, bits) in sorted(sites.items())],
                              'sq': _product_shape(w, res.info.get('share_openings') or {})}
         res.info.pop('openings', None)
